@@ -14,6 +14,7 @@ import (
 	"github.com/c2FmZQ/ech"
 
 	"verif/harness/internal/dohfake"
+	"verif/harness/internal/mon"
 )
 
 // ---- parts 2 and 3: concurrent phases ---------------------------------------------------------------------------
@@ -315,11 +316,18 @@ func (c *concCase) runPhase(p int, kind string, rng *mrand.Rand) bool {
 	if kind != pkHerd {
 		close(start)
 	}
+	var pmu sync.Mutex
+	pending := map[uint64]bool{} // goroutines of this phase that are still calling the resolver
 	for g := range plans {
 		wg.Add(1)
 		go func() {
 			defer wg.Done()
 			defer bind(c.clock)()
+			me := gid()
+			pmu.Lock()
+			pending[me] = true
+			pmu.Unlock()
+			defer func() { pmu.Lock(); delete(pending, me); pmu.Unlock() }()
 			lrng := mrand.New(mrand.NewPCG(plans[g].seed, uint64(g)))
 			<-start
 			for _, name := range plans[g].names {
@@ -349,9 +357,32 @@ func (c *concCase) runPhase(p int, kind string, rng *mrand.Rand) bool {
 		close(start)
 	}
 	completed, errs, arrived := 0, 0, 0
+	// deadlock monitor: the phase's goroutines are the only users of this case's Resolver, which starts no goroutines
+	// itself. If every one of them that has not finished is parked on a mutex inside the library, in two looks a
+	// second apart, nobody is left to unlock it. (A look that finds anybody running, sleeping or in I/O resets it.)
+	tick := time.NewTicker(time.Second)
+	defer tick.Stop()
+	looks, deadlocked := 0, false
 	waitFor := func(cond func() bool) {
-		for !cond() && completed < total {
+		for !cond() && completed < total && !deadlocked {
 			select {
+			case <-tick.C:
+				pmu.Lock()
+				ids := map[uint64]bool{}
+				for id := range pending {
+					ids[id] = true
+				}
+				pmu.Unlock()
+				if all, n, where := mon.ParkedOnLocks(ids); all && n > 0 && len(done) == 0 {
+					looks++
+					if looks >= 3 {
+						deadlocked = true
+						c.viol("deadlock:calls-parked-on-a-lock@"+where, map[string]any{"phase": kind, "parked_calls": n, "completed_calls": completed, "planned_calls": total},
+							"%d of %d Resolve calls of a %s phase are parked on a lock in %s and no other goroutine uses this Resolver: they can never return", n, total-completed, kind, where)
+					}
+				} else {
+					looks = 0
+				}
 			case <-srv.Arrivals():
 				arrived++
 			case rec := <-done:
@@ -391,6 +422,13 @@ func (c *concCase) runPhase(p int, kind string, rng *mrand.Rand) bool {
 		c.counts["conc_midphase_zone_changes"]++
 	}
 	waitFor(func() bool { return false })
+	if deadlocked {
+		srv.Release()
+		if kind == pkFailing {
+			c.setFail(p, dohfake.FailNone)
+		}
+		return false // the parked goroutines are abandoned; every case has its own Resolver
+	}
 	wg.Wait()
 	for len(srv.Arrivals()) > 0 {
 		<-srv.Arrivals()
